@@ -89,14 +89,11 @@ func main() {
 			}
 		}()
 		env := rules.NewEnv(run)
-		rules.RunSpec(env, *prop, spec)
 		var also []string
 		if *tier == "thorough" {
 			also = rules.ThoroughTargets(*prop)
 		}
-		if *prop != "C19" { // C19 analyses every target anyway
-			rules.RunOtherFileSets(env, *prop, spec, also)
-		}
+		rules.RunAll(env, *prop, spec, also)
 		if *tier == "thorough" {
 			rules.Thorough(env, *prop, spec)
 		}
@@ -152,7 +149,7 @@ func explain(args []string) {
 				run.Unknown("core", "checker-panic", "", fmt.Sprint(e))
 			}
 		}()
-		rules.RunSpec(rules.NewEnv(run), rp.Property, spec)
+		rules.RunAll(rules.NewEnv(run), rp.Property, spec, nil)
 	}()
 	fmt.Printf("on the current tree (%s), rule %s:\n", repo, rp.Rule)
 	hit := false
